@@ -526,3 +526,66 @@ class get_spine_types:
         text = Exporter().export_string(document, ExportOptions(spine_types=spine_types, token_categories=[TokenCategory.HEADER]))
         first = text.split('\n')[0]
         return result == ([] if first == '' else first.split('\t'))
+
+
+# ------------------------------------------------------------------------------------------------ the public spine-type query is that very query
+A_QUERY = 'Exporter.get_spine_types(document, spine_types) is a function of its arguments (what it answers: contract get_spine_types)'
+
+
+@contract(EX + 'Exporter.get_spine_types', props=['C06'], name='get_spine_types_summary', local=True, assumed=A_QUERY)
+class get_spine_types_summary:
+    def model(self, document, spine_types):
+        ghost_set('query.calls', ghost_get('query.calls', 0) + 1)
+        ghost_set('query.args', (document, spine_types))
+        return ghost_get('query.answer')
+
+
+def mk_query_case(g):
+    from kernpy.core.document import Document
+    shape = g.choice('headers.shape', ['none', 'empty', 'some'])
+    sel = None if shape == 'none' else ([] if shape == 'empty' else g.str_subset('headers', ['**kern', '**text', '**harm']))
+    if g.symbolic:
+        document = g.new(Document, {'tree': mk_tree(g), 'measure_start_tree_stages': [], 'page_bounding_boxes': {}, 'header_stage': 1}, None)
+        answer = g.seq('answer', lambda e: e.str_sym('header', ['**kern', '**text']))
+        ghost_set('query.answer', answer)
+    else:
+        document, answer = native_document(g), None
+    return document, sel, answer
+
+
+@contract('kernpy.core.generic.Generic.get_spine_types', props=['C06'], name='generic_get_spine_types')
+class generic_get_spine_types:
+    """the facade hands the document and the selection over unchanged, once, and returns the answer as it is"""
+    uses = ('get_spine_types_summary',)
+    assumes = (A_QUERY,)
+
+    def inputs(g):
+        document, sel, answer = mk_query_case(g)
+        return {'cls': Generic, 'document': document, 'spine_types': sel, '_answer': answer}
+
+    modifies = ()
+
+    def post_handed_over_unchanged(result, document, spine_types, answer):
+        if not symbolic_run():
+            return result == Exporter().get_spine_types(document, spine_types)
+        args = ghost_get('query.args')
+        return conj(ghost_get('query.calls', 0) == 1, args[0] is document, args[1] is spine_types, result is answer)
+
+
+@contract('kernpy.io.public.spine_types', props=['C06'], name='public_spine_types')
+class public_spine_types:
+    """kp.spine_types(document, headers) is that query: same document, headers as the selection, the answer returned as it is"""
+    uses = ('get_spine_types_summary',)
+    assumes = (A_QUERY,)
+
+    def inputs(g):
+        document, sel, answer = mk_query_case(g)
+        return {'document': document, 'headers': sel, '_answer': answer}
+
+    modifies = ()
+
+    def post_handed_over_unchanged(result, document, headers, answer):
+        if not symbolic_run():
+            return result == Exporter().get_spine_types(document, headers)
+        args = ghost_get('query.args')
+        return conj(ghost_get('query.calls', 0) == 1, args[0] is document, args[1] is headers, result is answer)
